@@ -372,6 +372,70 @@ func runFullQueueCase(w *world, topic lib.Topic, aPackets, bPackets int, aFirst 
 	return class, o.findings, obs
 }
 
+// runAttributionCase: the whole path from the socket to the inbox. Two real P2P nodes are joined through
+// P2P.AddPeer (real handshake, real connection services). The dialling side was told to expect the key
+// `claimed` at that address (peer book / gossiped address: strict=false; configured peer: strict=true);
+// the node that answers authenticates with its own key. Whatever reaches the dialler's inbox must be
+// attributed to the key that was AUTHENTICATED by the handshake, or nothing may be delivered at all.
+func runAttributionCase(w *world, claimOther, strict bool) (string, []finding, string) {
+	// fresh nodes: the peer sets of the world's nodes must not remember earlier cases
+	dialler, answerer, third := newNode(), newNode(), newNode()
+	ca, cb := newMemPipe("dialler", "answerer")
+	defer func() {
+		dialler.p.Stop()
+		answerer.p.Stop()
+		ca.Close()
+		cb.Close()
+	}()
+	claimed := answerer.pub
+	if claimOther {
+		claimed = third.pub
+	}
+	meta := &lib.PeerMeta{NetworkId: 1, ChainId: 1}
+	errB := make(chan lib.ErrorI, 1)
+	go func() {
+		errB <- answerer.p.AddPeer(cb, &lib.PeerInfo{Address: &lib.PeerAddress{NetAddress: "mem://dialler", PeerMeta: meta}}, false, false)
+	}()
+	eA := dialler.p.AddPeer(ca, &lib.PeerInfo{IsOutbound: true, Address: &lib.PeerAddress{PublicKey: bytes.Clone(claimed), NetAddress: "mem://answerer", PeerMeta: meta}}, false, strict)
+	eB := <-errB
+	obs := fmt.Sprintf("claimOther=%v strict=%v dialler.AddPeer=%v answerer.AddPeer=%v", claimOther, strict, eA != nil, eB != nil)
+	if eA != nil || eB != nil {
+		if claimOther && strict {
+			return "attribution:strict-mismatch:refused", nil, obs
+		}
+		if !claimOther {
+			return "attribution:honest:refused", []finding{{"C18:valid-traffic-closed-connection", "an honest outbound connection was refused: " + fmt.Sprint(eA, eB)}}, obs
+		}
+		return "attribution:non-strict-mismatch:refused", nil, obs
+	}
+	if claimOther && strict {
+		return "attribution:strict-mismatch:ACCEPTED", []finding{{"C18:misattributed:strict-dial-accepted-other-key", "a strict outbound dial expecting one key completed with a node that authenticated with another key"}}, obs
+	}
+	// the answerer sends one message to the dialler on the TX topic
+	msg := mkMessage(5, 300)
+	if e := answerer.p.PeerSet.SendTo(dialler.pub, tX, &lib.StringWrapper{Value: string(msg.payload)}); e != nil {
+		return "attribution:send-refused", nil, obs + " send=" + e.Error()
+	}
+	select {
+	case m := <-dialler.p.Inbox(tX):
+		var got []byte
+		if m.Sender != nil && m.Sender.Address != nil {
+			got = m.Sender.Address.PublicKey
+		}
+		switch {
+		case bytes.Equal(got, answerer.pub):
+			return "attribution:authenticated-key", nil, obs
+		case bytes.Equal(got, claimed):
+			return "attribution:CLAIMED-key", []finding{{"C18:misattributed:claimed-key-instead-of-authenticated-key",
+				fmt.Sprintf("a message received over an outbound connection (strict=%v) is attributed to the key the dialler was told to expect (%x…), not to the key the remote node authenticated with in the handshake (%x…)", strict, claimed[:6], answerer.pub[:6])}}, obs
+		default:
+			return "attribution:other-key", []finding{{"C18:misattributed", fmt.Sprintf("message attributed to %x", got)}}, obs
+		}
+	case <-time.After(3 * time.Second):
+		return "attribution:nothing-delivered", nil, obs
+	}
+}
+
 func runSequentialSmall(r *mc.Run, w *world) *seqStats {
 	st := &seqStats{outcomes: map[string]int{}}
 	for t := lib.Topic(0); t <= K.HeartbeatTopic; t++ {
@@ -431,6 +495,24 @@ func runSequentialSmall(r *mc.Run, w *world) *seqStats {
 		if k == 2 {
 			r.AddSample(map[string]any{"family": "sequential stop during receive", "case": name, "observation": obs, "verdict": verdict(fs)})
 		}
+	}
+	for _, ac := range []struct{ other, strict bool }{{false, false}, {false, true}, {true, false}, {true, true}} {
+		name := fmt.Sprintf("attribution:claimOther=%v:strict=%v", ac.other, ac.strict)
+		class, fs, obs := runAttributionCase(w, ac.other, ac.strict)
+		if len(fs) > 0 {
+			for i := 0; i < 2; i++ {
+				if _, fs2, _ := runAttributionCase(w, ac.other, ac.strict); len(fs2) == 0 {
+					fs = nil
+					break
+				}
+			}
+			if len(fs) > 0 {
+				report(r, name, fs[:1], obs)
+			}
+		}
+		st.malformedCases++
+		st.steps += 3
+		st.outcomes[class]++
 	}
 	for _, fq := range []struct {
 		a, b   int
